@@ -136,6 +136,15 @@ func VerifyFunction(p *Program, db *ContractDB, fc *FnContract) *FnResult {
 		res.Err = unsupported("closure %s verified directly", fc.Name)
 		return res
 	}
+	x.topContract, x.topArgs = fc, params
+	if v := fc.Opts["alloc"]; v != "" {
+		cl, err := parseClause(v)
+		if err != nil {
+			res.Err = fmt.Errorf("%s: opt alloc: %v", fc.Name, err)
+			return res
+		}
+		x.allocBound = &cl
+	}
 	pre := st.Clone()
 	env := x.newEnv(fn, nil, fc, params, st, pre)
 	// universally quantified ghost integers: fresh unconstrained constants
@@ -411,6 +420,21 @@ func (x *Exec) loopContract(fr *Frame, L *Loop) *LoopContract {
 }
 
 func matchLoop(fr *Frame, L *Loop, fc *FnContract) *LoopContract {
+	if lc := matchLoop1(fr, L, fc); lc != nil {
+		return lc
+	}
+	// default invariant for every loop without its own clause: `opt loopinv=<expr>`
+	if txt := fc.Opts["loopinv"]; txt != "" {
+		cl, err := parseClause(txt)
+		if err == nil {
+			cl.Label = "default"
+			return &LoopContract{Key: fmt.Sprintf("#%d(default)", L.Ordinal), Invariants: []Clause{cl}}
+		}
+	}
+	return nil
+}
+
+func matchLoop1(fr *Frame, L *Loop, fc *FnContract) *LoopContract {
 	// keys: "<phi var name>#<k>" — k-th loop (in header order) whose header has a phi for that variable; or "#<ordinal>"
 	for _, lc := range fc.Loops {
 		if len(lc.Invariants) == 0 && lc.Unroll == 0 {
